@@ -1,5 +1,7 @@
 """C17 - collision fixing respects limits and its 'resolved' verdict is true (DESIGN.md section 5, C17)."""
-from .. import fonts
+import os
+
+from .. import build, fonts
 
 META = dict(
     technique='hooked-state monitor (H3): every fixing step of real shaping reports the neighbours at the positions they were merged, the shift before/after, limit, offset, margin and verdict; an independent geometric oracle (octaboxes as clipped convex polygons) judges the limit and resolved clauses; a component monitor drives ShiftCollider directly with seeded arrangements; an invariant monitor walks the interval set after every operation; ASan+UBSan build',
@@ -18,6 +20,9 @@ def run(chk):
     for fpath, tpath, _ in awami:
         parts.append(dict(harness='h_coll', flavour='asan', args=['--part', 'pipeline', '--font', fpath, '--texts', tpath], cases=(6400 if quick else 320000) // 16, nshards=16, nsamples=2))
         parts.append(dict(harness='h_coll', flavour='asan', args=['--part', 'component', '--font', fpath], cases=(64000 if quick else 3200000) // 16, nshards=16, nsamples=1))
+    # recorded witness of known finding KF-C17-5, replayed as it stands
+    parts.append(dict(harness='h_coll', flavour='asan', args=['--part', 'pipeline', '--font', fonts.font('AwamiNastaliq-Regular.ttf'), '--texts', os.path.join(build.VERIF, 'witness', 'KF-C17-5.txt'), '--fixdir', 1],
+                      cases=4, nshards=1, nsamples=0))
     chk.run_parts(parts, workers=2)
     t = chk.tot
     cov['evaluations'] = int(t.get('steps', 0) + t.get('zone_ops', 0))
